@@ -61,6 +61,7 @@ class Session:
         self.id = sid
         self.ev = []
         self.objs = {}          # object id -> the live networkx object
+        self.prov = {}          # canonicalized object id -> copy of the graph that was handed to canonicalize_molecule
         self._next = 1
         self.note = note
 
@@ -111,6 +112,7 @@ class Session:
                             "clause": "C12:result-not-numbered-0..n-1"})
             return None
         r = self._new(res)
+        self.prov[r] = copy.deepcopy(g)
         e = {"op": "canon", "arg": k, "ret": r, "g": pr, "before": before, "after": after}
         if spy and ps.parts:
             e["parts"] = ps.parts
@@ -129,11 +131,16 @@ class Session:
         after = project(g, keep_scratch=False)
         e = {"op": "ser", "arg": k, "ret": s, "before": before, "after": after}
         if wit is None and not nowit:
-            wit = propose_witness(g, s)
+            wit, decided = propose_witness(self.prov_graph(k), s)
+            if wit is None and decided:
+                e["nowit"] = True
         if wit is not None:
             e["wit"] = wit
         self.ev.append(e)
         return s
+
+    def prov_graph(self, k):
+        return self.prov.get(k, self.objs[k])
 
     def parse(self, s, of=None, sid=None, expect_ok=None):
         e = {"op": "parse", "s": s}
@@ -153,9 +160,11 @@ class Session:
         if sid is not None:
             e["sid"] = sid
         if of is not None:
-            w = witness_between(self.objs[of], p)
+            w, decided = witness_between(self.prov_graph(of), p)
             if w is not None:
                 e["of"], e["wit"] = of, w
+            elif decided:
+                e["of"], e["nowit"] = of, True
         self.ev.append(e)
         tag_graph(p)        # so that later calls on the parsed graph are traceable
         self.ev.append({"op": "derive", "obj": self._new(p), "from": k, "perm": list(range(p.number_of_nodes())),
@@ -198,12 +207,15 @@ def _check_iso(g, h, w):
 
 
 def witness_between(g, h, vf2_limit=400):
-    """a colour- and bond-preserving bijection g -> h as a list (label a of g |-> w[a] of h), or None.
+    """(w, decided): a colour- and bond-preserving bijection g -> h as a list (label a of g |-> w[a] of h) or None;
+    decided = the search was complete (None then means: the graphs are not isomorphic).
     First proposal: line the two graphs up through the library's own canonical labelling (cheap, any size);
     fallback: networkx VF2.  Either way the specification re-checks the bijection."""
     n = g.number_of_nodes()
-    if n != h.number_of_nodes() or sorted(g.nodes) != list(range(n)) or sorted(h.nodes) != list(range(n)):
-        return None
+    if n != h.number_of_nodes():
+        return None, True
+    if sorted(g.nodes) != list(range(n)) or sorted(h.nodes) != list(range(n)):
+        return None, False
     try:
         gg, hh = g.copy(), h.copy()
         for x in gg.nodes:
@@ -220,15 +232,16 @@ def witness_between(g, h, vf2_limit=400):
         for c in kg.nodes:
             w[kg.nodes[c]["_w"]] = back[c]
         if _check_iso(g, h, w):
-            return w
+            return w, True
     except Exception:
         pass
     if n <= vf2_limit:
         gm = nx.algorithms.isomorphism.GraphMatcher(g, h, node_match=lambda x, y: _col(x) == _col(y))
         if gm.is_isomorphic():
             m = gm.mapping
-            return [m[a] for a in range(n)]
-    return None
+            return [m[a] for a in range(n)], True
+        return None, True           # VF2 is complete: there is no colour-preserving bijection
+    return None, False
 
 
 def propose_witness(g, s):
@@ -237,7 +250,7 @@ def propose_witness(g, s):
     try:
         p = tparser.graph_from_tucan(s)
     except BaseException:  # noqa
-        return None
+        return None, False
     return witness_between(g, p)
 
 
